@@ -310,11 +310,12 @@ def main():
             cs = calls(s, onames, pnames, maxlist, sorted(Q_OTHERS))
             stats['states'] += 1
             stats['behaviours'] += 1
-            for c in cs:
+            for ci, c in enumerate(cs):
                 rec.new(1, s)
                 rec.op(1, c)
                 stats['edges'] += 1
-                if a.mode == 'paths2' and (a.fraction >= 1.0 or rngf.random() < a.fraction):
+                if a.mode == 'paths2' and (a.fraction >= 1.0 or
+                                           random.Random(f'{a.seed}:{si}:{ci}').random() < a.fraction):
                     post = rec_def.triple(rec.live[1])
                     for c2 in calls(post, onames, pnames, maxlist, sorted(Q_OTHERS)):
                         rec.fork(1, 2)
